@@ -3,7 +3,7 @@ CONSTANTS
   Ctls = {"h1", "h2", "h3", "h4", "h5", "h6", "h7", "h8", "h9", "h10", "h11", "h12", "h13", "h14", "h15", "h16", "h17", "h18", "h19", "h20", "h21", "h22", "h23", "h24", "h25", "h26", "h27", "h28", "h29", "h30", "h31", "h32", "h33", "h34", "h35", "h36", "h37", "h38", "h39", "h40", "h41", "h42", "h43", "h44", "h45", "h46", "h47", "h48", "h49", "h50", "h51", "h52", "h53", "h54", "h55", "h56", "h57", "h58", "h59", "h60"}
   Runs = {"r1", "r2", "r3", "r4", "r5", "r6", "r7", "r8", "r9", "r10", "r11", "r12", "r13", "r14", "r15", "r16", "r17", "r18", "r19", "r20", "r21", "r22", "r23", "r24", "r25", "r26", "r27", "r28", "r29", "r30", "r31", "r32", "r33", "r34", "r35", "r36", "r37", "r38", "r39", "r40"}
   Names = {"a", "b", "c"}
-  Deviations = {"RegisterWorkConnRecoverNil"}
+  Deviations = {}
 INVARIANTS NoMismatch TypeOK SessionOnlyIfAuthenticated BypassOnlyInternal RefusedLeavesNoState TableOnlyAuthenticated OneLivePerName AckAfterOldGone RunIdMeansNewest NewestStaysUntilClosed PoolOnlyWhileOpen
 CONSTRAINT TConstraint
 POSTCONDITION TAccepted
